@@ -1078,6 +1078,10 @@ void janet_buffer_format(
                     JanetByteView bytes = janet_getbytes(argv, arg);
                     const uint8_t *s = bytes.bytes;
                     int32_t l = bytes.len;
+                    if (janet_checktype(argv[arg], JANET_BUFFER)) {
+                        /* Buffer data is not zero terminated and may be the destination itself */
+                        s = janet_string(s, l);
+                    }
                     if (form[2] == '\0')
                         janet_buffer_push_bytes(b, s, l);
                     else {
